@@ -90,12 +90,7 @@ def _describe(ev):
     return vlib.short(o, 300)
 
 
-def run(ctx):
-    binp = vlib.build_harness(BIN)
-    tier = "quick" if ctx.quick else "thorough"
-
-    # ---- spec -> impl -------------------------------------------------------------------------------
-    cases_path = ctx.path("cases.ndjson")
+def _explore(ctx, cases_path, tier):
     n_cases = {"gn": 0, "nav": 0, "inst": 0}
     plant = {}
     samples = {}
@@ -129,6 +124,25 @@ def run(ctx):
         }
         for k in ("gn", "nav", "inst"):
             fc.write(json.dumps(bad[k], separators=(",", ":")) + "\n")
+    return mc, n_cases, plant, samples
+
+
+def run(ctx):
+    binp = vlib.build_harness(BIN)
+    tier = "quick" if ctx.quick else "thorough"
+
+    # ---- spec -> impl -------------------------------------------------------------------------------
+    cases_path = ctx.path("cases.ndjson")
+    # TLC start-up: a StackOverflowError while it pre-computes the constants was seen in about one start out of ten
+    # before the chains of lazy values in Naming!Crc32 were forced; such a start is simply repeated
+    for attempt in (1, 2, 3):
+        try:
+            mc, n_cases, plant, samples = _explore(ctx, cases_path, tier)
+            break
+        except vlib.ToolError as e:
+            if "StackOverflowError" not in str(e) or attempt == 3:
+                raise
+            ctx.note("TLC start-up stack overflow, attempt %d repeated" % attempt)
     total_cases = sum(n_cases.values())
     ctx.note("MC_Naming: %d states generated, %d distinct, depth %d, cases %s (%.1fs)" %
              (mc.generated, mc.distinct, mc.depth, json.dumps(n_cases), mc.wall))
